@@ -415,7 +415,7 @@ func c14Continuous(r *Run, h *hist, svc c14svc, kind string, compress bool, rete
 	long := 0
 	for i := 0; i < nsteps && !r.Failed(); i++ {
 		r.Step()
-		event := []string{"commits", "many-commits", "outage", "restore-service", "wait", "wait-long", "retention", "to-wal"}[t.Pick([]int{8, 2, 3, 4, 5, 2, 2, 1})]
+		event := []string{"commits", "many-commits", "outage", "restore-service", "wait", "wait-long", "retention", "to-wal", "lose-reply"}[t.Pick([]int{8, 2, 3, 4, 5, 2, 2, 1, 4})]
 		if event == "many-commits" && long >= 2 {
 			event = "commits"
 		}
@@ -429,6 +429,16 @@ func c14Continuous(r *Run, h *hist, svc c14svc, kind string, compress bool, rete
 			commits(250 + t.Range(0, 30))
 			h.maxPages = saved
 			r.Count("c14.stream.long-backlog")
+		case "lose-reply":
+			// the service stores the next upload, its answer is lost; a
+			// transaction or two are committed before the stream tries again
+			fb.mu.Lock()
+			fb.mode = "after"
+			fb.mu.Unlock()
+			commits(t.Range(1, 2))
+			wait(delay + time.Duration(t.Range(0, 300))*time.Millisecond)
+			commits(t.Range(1, 3))
+			wait(delay + time.Duration(t.Range(200, 2500))*time.Millisecond)
 		case "outage":
 			out.set(true)
 		case "restore-service":
